@@ -25,11 +25,13 @@ fn space_for(tier: Tier) -> (Space, usize) {
             s.ast("K", 3, 16).ast("CL", 3, 16).tok("T0", &gen::T_CORE, 2, 16).ast("NESTX", 3, 4);
             // deeper nesting with single insertions only
             s.ast_range("NESTX", 4, 5, 8, 1);
+            s.tok("TX", &gen::T_XCLS, 4, 64).tok("TXE", &gen::T_XESC, 3, 16);
             (s, 2)
         }
         Tier::Thorough => {
             s.ast("K", 4, 16).ast("CL", 3, 16).ast("G", 4, 16).tok("T0", &gen::T_CORE, 3, 16).tok("T", &gen::T_FULL, 2, 16).ast("NESTX", 4, 4);
             s.ast_range("NESTX", 5, 6, 8, 1);
+            s.tok("TX", &gen::T_XCLS, 5, 64).tok("TXE", &gen::T_XESC, 4, 16);
             (s, 2)
         }
     }
@@ -37,9 +39,9 @@ fn space_for(tier: Tier) -> (Space, usize) {
 
 const INPUTS: [&str; 17] = ["", "a", "b", "ab", "aab", " ", "a b", "a\tb", "\n", "1", "a\u{c}b", "\u{a0}", "c", "ca", "cab", "ccb", "[a]b"];
 
-fn observe(text: &str, flags: &str, extra_input: &str) -> Vec<String> {
+fn observe(text: &str, flags: &str, extra_input: &str, xsd: bool) -> Vec<String> {
     let mut v = vec![];
-    match imp::compile(text, flags, false) {
+    match imp::compile(text, flags, xsd) {
         Out::Ok(re) => {
             v.push("compile=Ok".to_string());
             for inp in INPUTS.iter().copied().chain(std::iter::once(extra_input)) {
@@ -120,7 +122,7 @@ impl Check for C14 {
                 }
                 ok && depth == 0
             };
-            let mut base_cache: std::collections::HashMap<String, Vec<String>> = std::collections::HashMap::new();
+            let mut base_cache: std::collections::HashMap<(String, bool), Vec<String>> = std::collections::HashMap::new();
             for gs in &gapsets {
                 for ins in WS.iter().chain(NOT_WS.iter()) {
                     let mut with: Vec<char> = Vec::with_capacity(n + gs.len());
@@ -138,8 +140,13 @@ impl Check for C14 {
                     let stripped: String = strip_x(&with).iter().collect();
                     out.inc("states");
                     out.pin(&|| format!("{:?} flag x vs {:?}", with_s, stripped));
-                    let a = observe(&with_s, "x", &stripped);
-                    let b = base_cache.entry(stripped.clone()).or_insert_with(|| observe(&stripped, "", &stripped)).clone();
+                  // both dialects know flag x; the XSD dialect on single insertions
+                  for xsd in [false, true] {
+                    if xsd && gs.len() > 1 {
+                        continue;
+                    }
+                    let a = observe(&with_s, "x", &stripped, xsd);
+                    let b = base_cache.entry((stripped.clone(), xsd)).or_insert_with(|| observe(&stripped, "", &stripped, xsd)).clone();
                     if a.iter().any(|x| x.contains("CRASH") || x.contains("PANIC") || x.contains("NONTERMINATION")) || b.iter().any(|x| x.contains("CRASH") || x.contains("PANIC") || x.contains("NONTERMINATION")) {
                         out.inc("inconclusive_crash");
                         continue;
@@ -157,13 +164,14 @@ impl Check for C14 {
                         let input = if ix == 0 { "" } else { INPUTS.get(ix - 1).copied().unwrap_or(&stripped) };
                         out.fail(
                             "C14",
-                            &Case::new(&scope_name, &with_s, "x").input(input).repl("<$0>").api(if ix == 0 { "compile" } else { "all" }),
+                            &Case::new(&scope_name, &with_s, "x").xsd(xsd).input(input).repl("<$0>").api(if ix == 0 { "compile" } else { "all" }),
                             "XDiffersFromStripped",
                             &format!("like {:?} without x: {}", stripped, b.get(ix).cloned().unwrap_or_default()),
                             &a.get(ix).cloned().unwrap_or_default(),
                             &format!("inserted U+{:04X} at gaps {:?} of {:?}", *ins as u32, gs, text),
                         );
                     }
+                  }
                 }
             }
             out.sample(J::obj(vec![("pattern", J::s(text)), ("gap_sets", J::i(gapsets.len())), ("inserted", J::s("TAB LF CR SP U+000B U+000C U+00A0 U+2003"))]));
